@@ -22,6 +22,10 @@ var insertable = []gram.FTok{
 	{Text: "[", Type: "["}, {Text: "]", Type: "]"}, {Text: "{", Type: "{"}, {Text: "}", Type: "}"}, {Text: "(", Type: "("}, {Text: ")", Type: ")"},
 	{Text: "#", Type: "ILLEGAL"}, {Text: "@", Type: "ILLEGAL"}, {Text: "$", Type: "ILLEGAL"}, {Text: "=", Type: "ILLEGAL"}, {Text: "+", Type: "ILLEGAL"},
 	{Text: ",", Type: "ILLEGAL"}, {Text: "*", Type: "ILLEGAL"}, {Text: "?", Type: "ILLEGAL"}, {Text: "~", Type: "ILLEGAL"}, {Text: "import", Type: "ILLEGAL"},
+	{Text: "/", Type: "ILLEGAL"}, {Text: "\\", Type: "ILLEGAL"}, {Text: "%", Type: "ILLEGAL"}, {Text: "^", Type: "ILLEGAL"}, {Text: "&", Type: "ILLEGAL"},
+	{Text: ">", Type: "ILLEGAL"}, {Text: "<", Type: "ILLEGAL"}, {Text: "/", Type: "ILLEGAL"},
+	// an opening comment marker that is never closed (finding F15); a stray closing one
+	{Text: "/* zz", Type: "OPEN-COMMENT"}, {Text: "/*", Type: "OPEN-COMMENT"}, {Text: "*/", Type: "ILLEGAL"},
 }
 
 type mutant struct {
@@ -220,6 +224,17 @@ func runC14(c *Ctx) error {
 				if m != nil && !spec.Accepts(typesOf(m.toks)) {
 					m.mustReject = true
 					m.why = "token sequence is not a sentence of spec/gocc2.ebnf"
+					// an inserted comment opener that meets a "*/" further on (inside a literal, or
+					// an inserted stray closer) is a well-formed comment: what is left is not judged
+					text := gram.Join(m.toks, nil)
+					for k, t := range m.toks {
+						if t.Type == "OPEN-COMMENT" {
+							if i := strings.Index(text, t.Text); i >= 0 && strings.Contains(text[i+2:], "*/") {
+								m.mustReject = false
+							}
+							_ = k
+						}
+					}
 				}
 			}
 			if m != nil {
